@@ -40,6 +40,14 @@ FILTERS = {
     "AQUA/MARG/adaptive": ("gam", lambda F, g, a, m, d: F.AQUA(a, m, g, adaptive=True), 300, 5000, 1.0 * DEG, ["alpha"]),
     "Fourati": ("gam", lambda F, g, a, m, d: F.Fourati(g, a, m, magnetic_dip=d), 300, 300, None, []),
     "ROLEQ": ("gam", lambda F, g, a, m, d: F.ROLEQ(g, a, m, magnetic_ref=d), 300, 3000, 2.0 * DEG, []),
+    # option variants: a sensor given zero weight must not make the filter more fragile when that sensor drops out (recovery is
+    # not judged: with one sensor ignored the attitude is only partly observable)
+    "ROLEQ/weights=[1,0]": ("gam", lambda F, g, a, m, d: F.ROLEQ(g, a, m, magnetic_ref=d, weights=np.array([1.0, 0.0])), 300, 3000, None, []),
+    "ROLEQ/weights=[0,1]": ("gam", lambda F, g, a, m, d: F.ROLEQ(g, a, m, magnetic_ref=d, weights=np.array([0.0, 1.0])), 300, 3000, None, []),
+    "ROLEQ/ENU": ("gam", lambda F, g, a, m, d: F.ROLEQ(g, a, m, magnetic_ref=d, frame="ENU"), 300, 3000, None, []),
+    "EKF/MARG/ENU": ("gam", lambda F, g, a, m, d: F.EKF(g, a, m, magnetic_ref=d, frame="ENU"), 300, 6000, None, ["P"]),
+    "Mahony/MARG/k_I=0": ("gam", lambda F, g, a, m, d: F.Mahony(g, a, m, k_I=0.0), 300, 20000, None, ["b"]),
+    "Madgwick/IMU/default": ("ga", lambda F, g, a, m, d: F.Madgwick(g, a), 300, 3000, None, []),
     "FKF": ("gam", lambda F, g, a, m, d: F.FKF(g, a, m), 300, 10000, 2.0 * DEG, ["Pk"]),
     "Complementary/IMU": ("ga", lambda F, g, a, m, d: F.Complementary(g, a), 300, 600, 1.0 * DEG, []),
     "Complementary/MARG": ("gam", lambda F, g, a, m, d: F.Complementary(g, a, m), 300, 600, 1.0 * DEG, []),
@@ -247,7 +255,7 @@ def check(case, ctx):
     Kc = K1 if long_recovery else (K_BURST if case.region.startswith("burst") else K)
     t0 = last + 1 + Kc
     if tol is None:
-        ctx.note("Fourati: recovery time is unbounded by design (its correction is proportional to the measured rate): recovery not judged")
+        ctx.note("recovery not judged for this configuration (Fourati: recovery time unbounded by design; option variants: validity only)")
     elif Qc is not None and t0 < len(Q):
         err = np.array([diff(name, Q[t], Qc[t]) for t in range(t0, len(Q))])
         ctx.le("K samples after the dropout the estimates are back within tolerance of the fault-free run", float(err.max()), tol,
